@@ -938,6 +938,8 @@ fn case_text(big: bool, enc: Encoding, low: &Option<Address>, nbase: usize, rng:
 
 struct G<'a> {
     rng: &'a mut Rng,
+    /// only lists of acceptable entries (for the first of two units: the second one must be reached)
+    tame: bool,
 }
 
 impl<'a> G<'a> {
@@ -1091,7 +1093,7 @@ impl<'a> G<'a> {
         };
         let mut hb = unit_base;
         // ~70 % lists of acceptable entries, the rest with boundary / unrepresentable entries
-        let style = self.rng.below(10);
+        let style = if self.tame { 0 } else { self.rng.below(10) };
         (0..n)
             .map(|_| {
                 let valid = match style {
@@ -1230,6 +1232,7 @@ fn gen_unit(g: &mut G) -> (Encoding, Option<Address>, usize, Vec<Vec<Ent>>, Vec<
     };
     let rl = lists(g, false);
     let ll = lists(g, true);
+    g.tame = false;
     (enc, low, nbase, rl, ll)
 }
 
@@ -1238,7 +1241,7 @@ pub fn gen(ctx: &Ctx, emit: &mut dyn FnMut(String)) {
     let mut rng = ctx.rng(16);
     let n = ctx.n(20_000, 400_000);
     for i in 0..n {
-        let mut g = G { rng: &mut rng };
+        let mut g = G { rng: &mut rng, tame: i % 4 == 3 && i % 16 != 15 };
         let (enc, low, nbase, rl, ll) = gen_unit(&mut g);
         let big = g.rng.chance(1, 3);
         if i % 4 != 3 {
